@@ -16,6 +16,11 @@ DRIVER = "drv_win"
 DRIVER_ROOT = "Win"
 T0 = 200
 KNOWN_TOGGLE = "C18-toggle-open-at-source-completion"
+T0_US = 200_000_000          # subscription instant of the microsecond-resolution (HistoricalScheduler) cases
+
+
+def t0_of(case):
+    return case.get("t0", T0)
 
 VALS = [None, 0, 1, False, "", "a", (), 2, 3, 4, 5, 0.0]
 
@@ -192,7 +197,72 @@ def gen_time_count(rng):
             "count": rng.choice([1, 2, 2, 3, 5]), "dispose": d, "dw": dw}
 
 
-EXTRA_GENS = [(gen_bound, 200), (gen_when, 220), (gen_toggle, 250), (gen_time, 300), (gen_time_count, 200)]
+US_SPANS = [2_010_000, 4_020_000, 8_030_000, 1_001_000, 10_500, 1_000_500, 2_000_001, 333_333, 100_000, 1_000_000, 50_001]
+
+
+def gen_us_src(rng, marks):
+    """elements just before / at / after the window boundaries `marks` (microseconds), plus a few elsewhere"""
+    ts = set()
+    for m in rng.sample(marks, min(len(marks), rng.choice([2, 4, 6, 8]))):
+        for off in rng.sample([-1000, -999, -500, -1, 0, 1, 500, 999, 1000], rng.choice([1, 2, 3])):
+            if m + off > T0_US:
+                ts.add(m + off)
+    for _ in range(rng.choice([0, 1, 3])):
+        ts.add(T0_US + rng.randrange(1, max(marks) - T0_US + 2))
+    ts = sorted(ts)
+    src = [[t, ["N", enc(rng.choice(VALS))]] for t in ts]
+    last = ts[-1] if ts else T0_US
+    r = rng.random()
+    if r < 0.35:
+        src.append([last + rng.choice([0, 1, 500, 1000, 100_000]), ["C"]])
+    elif r < 0.5:
+        src.append([last + rng.choice([0, 1, 1000]), ["E", "s0"]])
+    return src
+
+
+def gen_time_us(rng):
+    span = rng.choice(US_SPANS)
+    shift = rng.choice([None, None, span] + US_SPANS)
+    sh = shift or span
+    marks = [T0_US + k * sh for k in range(1, 9)] + [T0_US + k * sh + span for k in range(0, 8)]
+    src = gen_us_src(rng, marks)
+    d = rng.choice(marks[:8]) + rng.choice([-1, 0, 1, 500_000]) if rng.random() < 0.5 else T0_US + 9 * sh + span
+    d = max(d, T0_US)
+    return {"op": "win_time", "us": True, "t0": T0_US, "src": src, "span": span, "shift": shift, "dispose": d,
+            "dw": rng.random() < 0.6, "as_td": rng.random() < 0.3,
+            "horizon": max([d] + [m[0] for m in src]) + 3 * (sh + span) + 10}
+
+
+def gen_time_count_us(rng):
+    span = rng.choice(US_SPANS)
+    marks = [T0_US + k * span for k in range(1, 9)]
+    src = gen_us_src(rng, marks)
+    d = rng.choice(marks) + rng.choice([-1, 0, 1, 500_000]) if rng.random() < 0.5 else T0_US + 10 * span
+    d = max(d, T0_US)
+    return {"op": "win_time_count", "us": True, "t0": T0_US, "src": src, "span": span, "count": rng.choice([1, 2, 3, 5]),
+            "dispose": d, "dw": rng.random() < 0.6, "as_td": rng.random() < 0.3,
+            "horizon": max([d] + [m[0] for m in src]) + 4 * span + 10}
+
+
+def gen_derived(rng):
+    """boundaries / openings / closings derived from the hot source itself: same-instant order = subscription order"""
+    op = rng.choice(["win_bound", "win_bound", "win_when", "win_toggle"])
+    n = rng.choice([2, 4, 6, 8, 12])
+    src = gen_timeline(rng, n, nonconf=False)
+    marks = rng.sample([enc(v) for v in VALS], rng.choice([1, 2, 3, 5]))
+    d, dw = gen_dispose(rng, src)
+    c = {"op": op, "src": src, "derived": marks, "dispose": d, "dw": dw, "cold": False}
+    if op == "win_bound":
+        c.update({"bnd": [], "bfirst": False})
+    elif op == "win_when":
+        c.update({"closings": [], "pool": n + 2, "raise_at": rng.choice([None] * 5 + [1, 2])})
+    else:
+        times = [m[0] for m in src if m[1][0] == "N" and fw.key(m[1][1]) in {fw.key(x) for x in marks} and m[0] > T0]
+        c.update({"openings": [], "closings": [gen_closing(rng, src, t)[0] for t in times], "raise_at": None})
+    return c
+
+
+EXTRA_GENS = [(gen_derived, 200), (gen_time_us, 150), (gen_time_count_us, 100), (gen_bound, 200), (gen_when, 220), (gen_toggle, 250), (gen_time, 300), (gen_time_count, 200)]
 
 
 # ----------------------------------------------------------------------------------------- real code
@@ -222,6 +292,14 @@ def timelines_of(case):
     """name -> timeline in hot-observable CREATION order (that order decides same-instant ties)."""
     op = case["op"]
     tl = {}
+    if case.get("derived") is not None:
+        # boundaries / openings / closings are derived from the hot source itself: source.pipe(filter(marker))
+        tl["0"] = case["src"]
+        if op == "win_toggle":
+            for k in range(len(case["closings"])):
+                if not isinstance(case["closings"][k], dict):
+                    tl[str(k + 2)] = case["closings"][k]
+        return tl
     if op == "win_bound":
         if case.get("bsync") is not None:
             return {"0": case["src"]}       # the boundaries observable delivers inside its own subscribe: no hot timeline
@@ -264,8 +342,14 @@ def build(case, hots, sched, buffer):
         from reactivex.subject import BehaviorSubject
         return BehaviorSubject(fw.dec(n[1]) if len(n) > 1 else 0)
 
+    def derived():
+        marks = {fw.key(m) for m in case["derived"]}
+        return src.pipe(ops.filter(lambda v: fw.key(enc(v)) in marks))
+
     if op == "win_bound":
         f = ops.buffer if buffer else ops.window
+        if case.get("derived") is not None:
+            return src.pipe(f(derived()))
         bs = case.get("bsync")
         if bs is not None:
             return src.pipe(f(sync_obs(["N", 0] if bs == "N" else ["C"] if bs == "C" else bs)))
@@ -278,6 +362,8 @@ def build(case, hots, sched, buffer):
             calls[0] += 1
             if case.get("raise_at") == k:
                 raise InjectedError(f"cm{k}")
+            if case.get("derived") is not None:
+                return derived()
             if k < len(case["closings"]) and isinstance(case["closings"][k], dict):
                 n = case["closings"][k]["sync"]       # fires inside its own subscribe
                 if n[0] == "C":
@@ -303,20 +389,70 @@ def build(case, hots, sched, buffer):
             return hots[str(k + 2)] if str(k + 2) in hots else rx.never()
 
         f = ops.buffer_toggle if buffer else ops.window_toggle
-        return src.pipe(f(hots["1"], closing))
+        return src.pipe(f(derived() if case.get("derived") is not None else hots["1"], closing))
+    def dur(x):
+        """timespan argument: integer ticks; in microsecond cases a float of seconds (or a timedelta)"""
+        if x is None or not case.get("us"):
+            return x
+        if case.get("as_td"):
+            from datetime import timedelta
+            return timedelta(microseconds=x)
+        return x / 1e6
+
     if op == "win_time":
         f = ops.buffer_with_time if buffer else ops.window_with_time
-        return src.pipe(f(case["span"], case["shift"], scheduler=sched))
+        return src.pipe(f(dur(case["span"]), dur(case["shift"]), scheduler=sched))
     if op == "win_time_count":
         f = ops.buffer_with_time_or_count if buffer else ops.window_with_time_or_count
-        return src.pipe(f(case["span"], case["count"], scheduler=sched))
+        return src.pipe(f(dur(case["span"]), case["count"], scheduler=sched))
     raise ValueError(op)
 
 
 def run_real(case, buffer):
     from reactivex.testing import TestScheduler
 
-    s = TestScheduler()
+    us = bool(case.get("us"))
+    if us:
+        # microsecond resolution: a HistoricalScheduler (datetime clock, exact timedelta arithmetic); case times are
+        # integer microseconds since the scheduler's epoch
+        from datetime import timedelta
+        from reactivex.scheduler import HistoricalScheduler
+        from reactivex.testing.hotobservable import HotObservable
+        from reactivex.testing.recorded import Recorded
+
+        s = HistoricalScheduler()
+        epoch = s.now
+
+        def at(t):
+            return epoch + timedelta(microseconds=t)
+
+        def now():
+            return round((s.now - epoch) / timedelta(microseconds=1))
+
+        def mkhot(tl):
+            return HotObservable(s, [Recorded(at(r.time), r.value) for r in mkrec(tl)])
+
+        def subs_of(h):
+            out = []
+            for x in h.subscriptions:
+                u = x.unsubscribe
+                out.append([round((x.subscribe - epoch) / timedelta(microseconds=1)),
+                            None if isinstance(u, int) else round((u - epoch) / timedelta(microseconds=1))])
+            return out
+    else:
+        s = TestScheduler()
+
+        def at(t):
+            return t
+
+        def now():
+            return int(s.clock)
+
+        def mkhot(tl):
+            return s.create_hot_observable(*mkrec(tl))
+
+        def subs_of(h):
+            return fw.subs_json(h.subscriptions)
     log = []
     hots = {}
     colds = {}
@@ -325,30 +461,30 @@ def run_real(case, buffer):
             # cold source: messages are scheduled when the operator subscribes (relative times); a logging wrapper
             # stands in for the spy
             import reactivex as rx
-            cold = s.create_cold_observable(*mkrec([[t - T0, n] for t, n in tl if t >= T0]))
+            cold = s.create_cold_observable(*mkrec([[t - t0_of(case), n] for t, n in tl if t >= t0_of(case)]))
             colds[k] = cold
 
             def mkwrap(cold, k):
                 def subscribe(observer, scheduler=None):
                     def nx(v):
                         if not buffer:
-                            log.append([int(s.clock), "A", int(k), ["N", enc(v)]])
+                            log.append([now(), "A", int(k), ["N", enc(v)]])
                         observer.on_next(v)
 
                     def er(e):
                         if not buffer:
-                            log.append([int(s.clock), "A", int(k), ["E", err_name(e)]])
+                            log.append([now(), "A", int(k), ["E", err_name(e)]])
                         observer.on_error(e)
 
                     def co():
                         if not buffer:
-                            log.append([int(s.clock), "A", int(k), ["C"]])
+                            log.append([now(), "A", int(k), ["C"]])
                         observer.on_completed()
                     return cold.subscribe(nx, er, co, scheduler=scheduler)
                 return rx.Observable(subscribe)
             hots[k] = mkwrap(cold, k)
             continue
-        h = s.create_hot_observable(*mkrec(tl))
+        h = mkhot(tl)
         hots[k] = h
         if not buffer:
             # spy: first observer of the hot source -> logs every arrival just before the operator sees it
@@ -357,13 +493,13 @@ def run_real(case, buffer):
 
                 class Spy(abc.ObserverBase):   # raw observer: never stops, sees every message of the hot source
                     def on_next(self, v):
-                        log.append([int(s.clock), "A", int(k), ["N", enc(v)]])
+                        log.append([now(), "A", int(k), ["N", enc(v)]])
 
                     def on_error(self, e):
-                        log.append([int(s.clock), "A", int(k), ["E", err_name(e)]])
+                        log.append([now(), "A", int(k), ["E", err_name(e)]])
 
                     def on_completed(self):
-                        log.append([int(s.clock), "A", int(k), ["C"]])
+                        log.append([now(), "A", int(k), ["C"]])
                 return Spy()
             h.observers.append(mk(k))
     wsubs = []
@@ -372,52 +508,52 @@ def run_real(case, buffer):
 
     def on_next(w):
         if buffer:
-            log.append([int(s.clock), "O", ["N", enc(w)]])
+            log.append([now(), "O", ["N", enc(w)]])
             return
         i = nwin[0]
         nwin[0] += 1
-        log.append([int(s.clock), "O", ["N", i]])
-        wsubs.append(w.subscribe(lambda v: log.append([int(s.clock), "W", i, ["N", enc(v)]]),
-                                 lambda e: log.append([int(s.clock), "W", i, ["E", err_name(e)]]),
-                                 lambda: log.append([int(s.clock), "W", i, ["C"]])))
+        log.append([now(), "O", ["N", i]])
+        wsubs.append(w.subscribe(lambda v: log.append([now(), "W", i, ["N", enc(v)]]),
+                                 lambda e: log.append([now(), "W", i, ["E", err_name(e)]]),
+                                 lambda: log.append([now(), "W", i, ["C"]])))
 
     def do_sub(sc, st):
         o = build(case, hots, s, buffer)
-        sub.append(o.subscribe(on_next, lambda e: log.append([int(s.clock), "O", ["E", err_name(e)]]),
-                               lambda: log.append([int(s.clock), "O", ["C"]])))
+        sub.append(o.subscribe(on_next, lambda e: log.append([now(), "O", ["E", err_name(e)]]),
+                               lambda: log.append([now(), "O", ["C"]])))
 
     def do_disp(sc, st):
-        log.append([int(s.clock), "D"])
+        log.append([now(), "D"])
         sub[0].dispose()
         if case.get("dw", True):
             for d in wsubs:
                 d.dispose()
 
-    s.schedule_absolute(T0, do_sub)
+    s.schedule_absolute(at(t0_of(case)), do_sub)
     if case.get("dispose") is not None:
-        s.schedule_absolute(case["dispose"], do_disp)
-    s.schedule_absolute(case.get("horizon", 3000), lambda sc, st: s.stop())
+        s.schedule_absolute(at(case["dispose"]), do_disp)
+    s.schedule_absolute(at(case.get("horizon", 3000)), lambda sc, st: s.stop())
     esc = []
     for _ in range(20):
         try:
             s.start()
             break
         except InjectedError as e:
-            esc.append([int(s.clock), e.name])
+            esc.append([now(), e.name])
             s.stop()      # start() left _is_enabled set; without this the restart returns at once
         except Exception as e:  # noqa: library exception escaping into the scheduler
-            esc.append([int(s.clock), type(e).__name__])
+            esc.append([now(), type(e).__name__])
             s.stop()
-    return {"log": log, "subs": {k: fw.subs_json((colds.get(k) or h).subscriptions) for k, h in sorted(hots.items())}, "escaped": esc}
+    return {"log": log, "subs": {k: subs_of(colds.get(k) or h) for k, h in sorted(hots.items())}, "escaped": esc}
 
 
 def run_resub(case, twice):
-    """one piped (buffer) observable over a cold source; subscribed at T0 (disposed after first_len) when `twice`, and
+    """one piped (buffer) observable over a cold source; subscribed at t0_of(case) (disposed after first_len) when `twice`, and
     again at 1000: returns what the subscription at 1000 sees (times relative to 1000)."""
     from reactivex.testing import TestScheduler
 
     s = TestScheduler()
-    cold = s.create_cold_observable(*mkrec([[t - T0, n] for t, n in case["src"] if t >= T0]))
+    cold = s.create_cold_observable(*mkrec([[t - t0_of(case), n] for t, n in case["src"] if t >= t0_of(case)]))
     o = build(case, {"0": cold}, s, True)
     out = []
 
@@ -430,7 +566,7 @@ def run_resub(case, twice):
             s.schedule_absolute(until, lambda sc2, st2: d.dispose())
         return act
     if twice:
-        s.schedule_absolute(T0, sub(False, T0 + case["first_len"]))
+        s.schedule_absolute(t0_of(case), sub(False, t0_of(case) + case["first_len"]))
     s.schedule_absolute(1000, sub(True, 1600))
     s.schedule_absolute(3000, lambda sc, st: s.stop())
     try:
@@ -467,18 +603,49 @@ PRIO_D = 10 ** 6
 
 def merged_events(case):
     """static global order of the hot messages on the TestScheduler: by time, then creation order of the hot
-    observable, then message index; the subscribe (T0) and dispose actions are scheduled after every hot message,
-    so messages at time <= T0 are never seen and a dispose comes last in its instant."""
+    observable, then message index; the subscribe (t0_of(case)) and dispose actions are scheduled after every hot message,
+    so messages at time <= t0_of(case) are never seen and a dispose comes last in its instant."""
     evs = []
+    if case.get("derived") is not None:
+        # one hot source, several subscriptions of the operator to it: a message is delivered to them in SUBSCRIPTION
+        # order.  window_: source first, then boundaries; window_when: source first, then the current closing (all
+        # closing ids in descending order: the one subscribed while this message is handled does not see it);
+        # window_toggle (group_join): openings (left) are subscribed first, then the source (right).
+        marks = {fw.key(m) for m in case["derived"]}
+        op = case["op"]
+        others = []
+        for k, tl in timelines_of(case).items():
+            if k != "0":
+                for i, (t, n) in enumerate(tl):
+                    if t > t0_of(case):
+                        others.append((t, 5 + int(k), i, [t, int(k), n]))
+        for i, (t, n) in enumerate(case["src"]):
+            if t <= t0_of(case):
+                continue
+            hit = n[0] != "N" or fw.key(n[1]) in marks
+            seq = []
+            if op == "win_bound":
+                seq = [[t, 0, n]] + ([[t, 1, n]] if hit else [])
+            elif op == "win_when":
+                seq = [[t, 0, n]] + ([[t, j, n] for j in range(case["pool"], 0, -1)] if hit else [])
+            else:
+                seq = ([[t, 1, n]] if hit else []) + [[t, 0, n]]
+            for j, e in enumerate(seq):
+                evs.append((t, 0, i * 100 + j, e))
+        evs += others
+        if case.get("dispose") is not None:
+            evs.append((case["dispose"], PRIO_D, 0, [case["dispose"], "D", bool(case.get("dw", True))]))
+        evs.sort(key=lambda e: e[:3])
+        return [e[3] for e in evs]
     for prio, (k, tl) in enumerate(timelines_of(case).items()):
         cold = k == "0" and case.get("cold")
         for i, (t, n) in enumerate(tl):
             if cold:
-                # a cold source schedules its messages at subscription (T0): they come after every hot message and
-                # after the harness' dispose action of their instant, and a message due at T0 itself is delivered
-                if t >= T0:
+                # a cold source schedules its messages at subscription (t0_of(case)): they come after every hot message and
+                # after the harness' dispose action of their instant, and a message due at t0_of(case) itself is delivered
+                if t >= t0_of(case):
                     evs.append((t, PRIO_D + 1, i, [t, int(k), n]))
-            elif t > T0:
+            elif t > t0_of(case):
                 evs.append((t, prio, i, [t, int(k), n]))
     if case.get("dispose") is not None:
         evs.append((case["dispose"], PRIO_D, 0, [case["dispose"], "D", bool(case.get("dw", True))]))
@@ -493,7 +660,7 @@ def model_request(case):
     if case["op"] not in MODELLED or case.get("resub"):
         return None
     r = {k: v for k, v in case.items() if k not in ("src", "bnd", "closings", "openings")}
-    r["t0"] = T0
+    r["t0"] = t0_of(case)
     r["horizon"] = case.get("horizon", 3000)
     r["events"] = merged_events(case)
     if case["op"] == "win_count" and r.get("skip") is None:
@@ -501,7 +668,7 @@ def model_request(case):
     if case["op"] == "win_time" and r.get("shift") is None:
         r["shift"] = case["span"]
     if "closings" in case:
-        r["pool"] = len(case["closings"])
+        r["pool"] = case.get("pool", len(case["closings"]))
         if case["op"] in ("win_when", "win_toggle"):
             r["sync"] = [None if not isinstance(c, dict) else ("fire" if c["sync"][0] in ("N", "C") else ["E", c["sync"][1]])
                          for c in case["closings"]]
@@ -514,9 +681,17 @@ def _strip(log):
     return [e for e in log if e[1] in ("O", "W")]
 
 
+def _flat(subs):
+    return {"all": [iv for k in sorted(subs, key=int) for iv in subs[k]]}
+
+
 def canon_impl(case, out):
     if "hang" in out or "resub" in out:
         return out
+    if case.get("derived") is not None:
+        # every subscription of the operator to the one hot source, in subscription order
+        return {"log": _strip(out["win"]["log"]), "subs": out["win"]["subs"], "escaped": out["win"]["escaped"],
+                "blog": _strip(out["buf"]["log"]), "bsubs": out["buf"]["subs"]}
     return {"log": _strip(out["win"]["log"]), "subs": {k: v for k, v in out["win"]["subs"].items()},
             "escaped": out["win"]["escaped"],
             "blog": _strip(out["buf"]["log"]), "bsubs": out["buf"]["subs"]}
@@ -539,6 +714,24 @@ def canon_model(case, resp):
     if isinstance(resp, dict) and "error" in resp:
         return resp
     names = sorted(timelines_of(case).keys())
+    if case.get("derived") is not None:
+        def order(log):
+            # intervals in the order of the model's subscribe events; derived ids (not hot timelines) belong to source "0"
+            ivs, res = {}, {n: [] for n in names}
+            for e in log:
+                if e[1] == "S":
+                    iv = [e[0], None]
+                    ivs.setdefault(e[2], []).append(iv)
+                    res[str(e[2]) if str(e[2]) in names else "0"].append(iv)
+                elif e[1] == "U":
+                    for iv in ivs.get(e[2], []):
+                        if iv[1] is None:
+                            iv[1] = e[0]
+                            break
+            return res
+        return {"log": _strip(resp["log"]), "subs": order(resp["log"]),
+                "escaped": [[e[0], e[2]] for e in resp["log"] if e[1] == "X"],
+                "blog": _strip(resp["blog"]), "bsubs": order(resp["blog"])}
     return {"log": _strip(resp["log"]), "subs": _subs_from(resp["log"], names),
             "escaped": [[e[0], e[2]] for e in resp["log"] if e[1] == "X"],
             "blog": _strip(resp["blog"]), "bsubs": _subs_from(resp["blog"], names)}
@@ -546,10 +739,10 @@ def canon_model(case, resp):
 
 # ----------------------------------------------------------------------------------------- oracle
 def src_elems(case):
-    """(time, value) of the source elements the operator can see: after T0, before the source's first terminal."""
+    """(time, value) of the source elements the operator can see: after t0_of(case), before the source's first terminal."""
     out, term = [], None
     for t, n in case["src"]:
-        if t < T0 or (t == T0 and not case.get("cold")):
+        if t < t0_of(case) or (t == t0_of(case) and not case.get("cold")):
             continue
         if n[0] == "N":
             out.append((t, n[1]))
@@ -595,13 +788,19 @@ def oracle_partition(case, log):
                 return f"window {e[2]} ended twice or while not open: {e}"
         elif e[1] == "W":
             return f"window element outside the delivery of a source arrival: {e}"
-        elif e[1] == "A" and e[2] == 0 and (e[0] > T0 or case.get("cold")):
+        elif e[1] == "A" and e[2] == 0 and (e[0] > t0_of(case) or case.get("cold")):
             if e[3][0] != "N":
                 src_done = True
                 continue
             if src_done:
                 continue
             j, got = i, []
+            if case.get("derived") is not None and case["op"] == "win_toggle":
+                # openings derived from the source are subscribed first: this very message may open a window before the
+                # source path delivers it
+                while j < len(log) and log[j][1] == "O" and log[j][2][0] == "N" and not detached:
+                    open_.append(log[j][2][1])
+                    j += 1
             while j < len(log) and log[j][1] == "W" and log[j][3][0] == "N":
                 got.append((log[j][2], log[j][3][1]))
                 j += 1
@@ -624,7 +823,7 @@ def oracle_end_with_source(case, log):
         elif e[1] == "W" and e[3][0] != "N":
             if e[2] in open_:
                 open_.remove(e[2])
-        elif e[1] == "A" and e[2] == 0 and (e[0] > T0 or case.get("cold")) and e[3][0] != "N":
+        elif e[1] == "A" and e[2] == 0 and (e[0] > t0_of(case) or case.get("cold")) and e[3][0] != "N":
             ends = {}
             for f in log[i + 1:]:
                 if f[0] != e[0] or f[1] in ("A", "D"):
@@ -699,7 +898,7 @@ def oracle_count(case, out):
             pass
         if fw.key([list(x) for x in w["items"]]) != fw.key([list(x) for x in exp]):
             return f"window {k} holds {w['items']}, expected elements {k*skip}..{k*skip+count-1}: {exp}"
-        opened = T0 if k == 0 else (elems[k * skip - 1][0] if k * skip - 1 < len(elems) else None)
+        opened = t0_of(case) if k == 0 else (elems[k * skip - 1][0] if k * skip - 1 < len(elems) else None)
         if opened != w["open"]:
             return f"window {k} opened at {w['open']}, expected {opened}"
         if len(elems) >= k * skip + count:
@@ -734,7 +933,7 @@ def toggle_shape(case, log):
             open_.discard(e[2])
         elif e[1] == "D" and case.get("dw", True):
             return False
-        elif e[1] == "A" and e[2] == 0 and (e[0] > T0 or case.get("cold")) and e[3][0] != "N":
+        elif e[1] == "A" and e[2] == 0 and (e[0] > t0_of(case) or case.get("cold")) and e[3][0] != "N":
             return e[3][0] == "C" and bool(open_)
     return False
 
@@ -785,13 +984,13 @@ def _win(t, cause):
 
 
 def spec_bound(case):
-    ws, alive = [_win(T0, "init")], True
+    ws, alive = [_win(t0_of(case), "init")], True
     bs = case.get("bsync")
     if bs == "N":
-        ws[-1]["end"] = (T0, ["C"], "init")
-        ws.append(_win(T0, "init"))
+        ws[-1]["end"] = (t0_of(case), ["C"], "init")
+        ws.append(_win(t0_of(case), "init"))
     elif bs is not None:
-        ws[-1]["end"] = (T0, ["C"] if bs == "C" else bs, "init")
+        ws[-1]["end"] = (t0_of(case), ["C"] if bs == "C" else bs, "init")
         return ws
     for t, k, n in _static_events(case):
         if not alive:
@@ -812,7 +1011,7 @@ def spec_when(case):
     """a closing signal (first next / completion of the current closing observable) ends the window and opens the next; a
     closing observable that fires inside its own subscribe does so at once; when the closing selector raises or a closing
     errors, the open window and the outer sequence both end with that error."""
-    ws, cur = [_win(T0, "init")], 0
+    ws, cur = [_win(t0_of(case), "init")], 0
     cl = case["closings"]
 
     def arm(t, cause):
@@ -833,7 +1032,7 @@ def spec_when(case):
                 continue
             return True
 
-    if not arm(T0, "init"):
+    if not arm(t0_of(case), "init"):
         return ws
     for t, k, n in _static_events(case):
         if k == 0:
@@ -937,10 +1136,10 @@ def _toggle_rest(case, ws, open_, nopen, t0):
 def spec_time(case):
     span, shift = case["span"], case["shift"] or case["span"]
     elems, term = src_elems(case)
-    horizon = (term[0] if term else max([case.get("dispose") or T0] + [e[0] for e in elems])) + span + shift + 1
+    horizon = (term[0] if term else max([case.get("dispose") or t0_of(case)] + [e[0] for e in elems])) + span + shift + 1
     ws, k = [], 0
     while True:
-        o = T0 + k * shift
+        o = t0_of(case) + k * shift
         if o >= (term[0] if term else horizon):      # the source wins ties: a window due at the terminal instant never opens
             break
         w = _win(o, "init" if k == 0 else "timer")
@@ -955,8 +1154,8 @@ def spec_time(case):
 def spec_time_count(case):
     span, count = case["span"], case["count"]
     elems, term = src_elems(case)
-    limit = (term[0] if term else max([case.get("dispose") or T0] + [e[0] for e in elems]) + span + 1)
-    ws, o, i, cause = [], T0, 0, "init"
+    limit = (term[0] if term else max([case.get("dispose") or t0_of(case)] + [e[0] for e in elems]) + span + 1)
+    ws, o, i, cause = [], t0_of(case), 0, "init"
     while True:
         w = _win(o, cause)
         ws.append(w)
@@ -1056,6 +1255,10 @@ def nontrivial(case, out):
 def bucket(case, out):
     yield case["op"]
     yield "source:" + ("cold" if case.get("cold") else "hot")
+    if case.get("derived") is not None:
+        yield "derived from the source (tie order = subscription order):" + case["op"]
+    if case.get("us"):
+        yield "float seconds / timedelta spans (microsecond clock)"
     if "resub" in out:
         yield "resubscription"
         return
